@@ -348,7 +348,7 @@ func checkC15(c *Ctx) {
 			continue
 		}
 		nF++
-		c.checkForwarder("O5 fan-out", fwdSpec{fn: fn, list: fTs, target: m.name, mode: m.mode, perIter: 1})
+		c.checkForwarderSSA("O5 fan-out", fwdSpec{fn: fn, list: fTs, target: m.name, mode: m.mode, perIter: 1})
 	}
 	c.floor("O5 fan-out", nF, 5)
 
